@@ -45,7 +45,7 @@ STUB = ["the scenario files live in the run's own scratch directory on the real 
 ASSUMPTIONS = ["run-spec overrides are generated for DSL models only, as the property says",
                "stop times lie on the grid of (start, dt)", "constants given as strings are numeric literals"]
 FAULT_KINDS = []
-PROBES = ["step_settings_expire_with_the_session", "sparse_observation", "observed_together_with_sibling", "sibling_on_another_grid", "channel_dict", "channel_files", "files_split_over_two", "base_constants_inherited", "base_points_inherited", "xmile_sourced_scenario",
+PROBES = ["session_over_scenarios_on_different_grids", "step_settings_expire_with_the_session", "sparse_observation", "observed_together_with_sibling", "sibling_on_another_grid", "channel_dict", "channel_files", "files_split_over_two", "base_constants_inherited", "base_points_inherited", "xmile_sourced_scenario",
           "runspec_override_at_registration", "setting_between_two_runs", "setting_after_reset", "string_valued_constant",
           "scenario_without_overrides"]
 EXHAUSTIVE = {"quick": False, "thorough": False}
